@@ -884,7 +884,7 @@ pub fn scale(out_dir: &str, thorough: bool, seed: u64) -> i32 {
                 events += 1;
                 recs.push(json!({"k":"grow","start":start,"len":len,"add":piece.len(),"cap1":cap,"cap2":s.capacity(),"dA":st.d_a,"dR":st.d_r}));
             } else if ptr != s.as_ptr() as usize || s.capacity() != cap {
-                recs.push(json!({"k":"bigop","op":"push-moved","teq":true,"len2":s.len(),"explen":s.len(),"cap2":s.capacity(),"resok":false,"fits":true,"dA":0,"dR":0,"sameptr":false}));
+                recs.push(json!({"k":"bigop","op":"push-moved","teq":true,"len2":s.len(),"explen":s.len(),"cap2":s.capacity(),"resok":false,"fits":true,"dA":0,"dR":0,"sameptr":false,"others":true}));
             }
         }
         recs.push(json!({"k":"loop","start":start,"cap0":cap0,"final":s.len(),"events":events,"teq":s.as_str() == std,"lenok":s.len() == std.len()}));
@@ -971,7 +971,12 @@ pub fn scale(out_dir: &str, thorough: bool, seed: u64) -> i32 {
     let mut s = LeanString::from("0123456789".repeat(3000).as_str());
     let mut std = s.as_str().to_string();
     let pieces = ["a", "é", "€", "𝄞", "0123456789abcdef", "xyz"];
-    for _ in 0..nops {
+    // every 20 calls a sibling is cloned off (and the previous one dropped): the next call works on a shared buffer
+    let mut sib: Option<(LeanString, String)> = None;
+    for opno in 0..nops {
+        if opno % 20 == 7 {
+            sib = Some((s.clone(), std.clone()));
+        }
         let len = s.len();
         let (cap, ptr) = (s.capacity(), s.as_ptr() as usize);
         let mut idx = r.below(len + 1);
@@ -1039,9 +1044,11 @@ pub fn scale(out_dir: &str, thorough: bool, seed: u64) -> i32 {
         };
         let st = shim::end_call(before);
         let fits = added > 0 && len + added <= cap;
+        let others = sib.as_ref().map(|(l, t)| l.as_str() == t.as_str()).unwrap_or(true);
         recs.push(json!({"k":"bigop","op":op,"teq":s.as_str() == std,"len2":s.len(),"explen":std.len(),"cap2":s.capacity(),"resok":resok,
-            "fits":fits,"dA":st.d_a,"dR":st.d_r,"sameptr":ptr == s.as_ptr() as usize}));
+            "fits":fits && sib.as_ref().map(|(l, _)| l.as_ptr() != ptr as *const u8).unwrap_or(true),"dA":st.d_a,"dR":st.d_r,"sameptr":ptr == s.as_ptr() as usize,"others":others}));
     }
+    drop(sib);
     drop(s);
     // ---- shrinking buffers that carry kilobytes of spare room (C13 at scale)
     for &(len, cap) in &[(48usize, 8192usize), (2, 5000), (100, 4196), (100, 4195), (5000, 20000), (17, 4200), (16, 6000), (40, 1 << 20), (3000, 3000 + 4096)] {
